@@ -178,7 +178,8 @@ func primaryPayloadTypeForRTXExists(needle RTPCodecParameters, haystack []RTPCod
 	}
 
 	for _, c := range haystack {
-		if c.PayloadType == PayloadType(primaryPayloadType) {
+		// an RTX entry is not a primary: apt has to name the codec that is retransmitted
+		if c.PayloadType == PayloadType(primaryPayloadType) && !strings.EqualFold(c.MimeType, MimeTypeRTX) {
 			primaryExists = true
 
 			return
